@@ -65,7 +65,8 @@ _add("C13", "Pfdl.Props.C13.table_complete", "Pfdl.Props.C13.applyOp_sem", "Pfdl
      "Pfdl.Props.C13.left_associative", "Pfdl.Props.C13.negation_rank", "Pfdl.Props.C13.k10_witness", "Pfdl.Props.C13.minus_plus_split_harmless",
      "Pfdl.ExprParse.parseWith_flat", "Pfdl.ExprParse.parseWith_iff", "Pfdl.Props.C13.reading_iff", "Pfdl.Props.C13.table_vs_ordinary",
      "Pfdl.Props.C13.ordinary_reading_iff", "Pfdl.Props.C13.common_fragment_agrees", "Pfdl.Props.C13.flat_rot", "Pfdl.Props.C13.sem_rot",
-     "Pfdl.Props.C13.decision_of_ordinary_reading", "Pfdl.Props.C13.canonB_iff")
+     "Pfdl.Props.C13.decision_of_ordinary_reading", "Pfdl.Props.C13.canonB_iff",
+     "Pfdl.Surface.spine_rot", "Pfdl.Surface.canon_rot", "Pfdl.Props.C13.precedence_general", "Pfdl.Props.C13.k10_value_differs")
 _add("C12", "Pfdl.Denter.run_ok", "Pfdl.Denter.run_spec", "Pfdl.Props.C12.blocks_balanced", "Pfdl.Props.C12.crlf_indent", "Pfdl.Props.C12.crlf_irrelevant",
      "Pfdl.Props.C12.blank_lines_irrelevant", "Pfdl.Props.C12.leading_lines_irrelevant", "Pfdl.Props.C12.final_newline_irrelevant",
      "Pfdl.Props.C12.nesting_from_depths", "Pfdl.Props.C12.indentation_width_irrelevant", "Pfdl.Props.C12.trailing_blank_irrelevant",
